@@ -71,6 +71,7 @@ def cases(tier, seed):
     out.append({"id": "lens-orders", "kind": "orders", "tier": tier})
     out.append({"id": "numexpr-shim", "kind": "shim"})
     # detector planes that are not at z = 0
+    out.append({"id": "from-parameters", "kind": "fromparams"})
     for zd in (0.7, -0.4):
         out.append({"id": "detector-plane:z=%r" % zd, "kind": "detz",
                     "zd": zd})
@@ -339,6 +340,65 @@ def _run_detz(case, ck):
                     "by %.2e (m=%r x=%r kz=%r angle=%r pol=%g)" %
                     (zd, e, m, x, kz, ang, pa))
             fps.append(fp_values(a))
+        # a nearly planar list of points (heights differing by 1e-6 of the
+        # distance to the particle): each point as in a call of its own
+        tl = pts.copy()
+        tl[:, 2] = zd + 1e-5 * np.arange(len(tl)) / len(tl)
+        # (MieLens refuses detectors that are not one plane)
+        for thname, mk in (("Lens(Mie)", lambda: Lens(ang, Mie(False, False),
+                                                     64, 64)),):
+            whole = _field(H.det_points(tl), sph, mk(), _pol(30.0))
+            ck.trans += 1
+            worst = 0.0
+            for j in range(0, len(tl), 3):
+                one = _field(H.det_points(tl[j:j + 1]), sph, mk(),
+                             _pol(30.0))
+                ck.trans += 1
+                worst = max(worst, float(np.abs(whole[j] - one[0]).max() /
+                                         np.abs(whole).max()))
+            ck.metric("nearly-planar-pointwise", worst)
+            ck.true("nearly-planar-pointwise", worst <= 1e-10, "%s on a "
+                    "nearly planar list of points (plane z=%r tilted by 1e-5)"
+                    " differs from the same points one at a time by %.2e "
+                    "(m=%r x=%r kz=%r)" % (thname, zd, worst, m, x, kz))
+    return digest(*fps)
+
+
+def _run_fromparams(case, ck):
+    """theory.from_parameters with another lens angle (what a fit of the
+    lens angle calls at every step) is the theory built with that angle"""
+    from holopy.scattering.theory import (MieLens, Lens, Mie,
+                                          AberratedMieLens)
+    from holopy.scattering import Sphere
+    _, pts = _setup(1.2, 5.0, 20.0)
+    det = H.det_points(pts[:10])
+    sph = Sphere(n=1.2 * H.NMED, r=5.0 / H.K, center=(0.0, 0.0, 20.0 / H.K))
+    fps = []
+    for name, mk in (("Lens(Mie)", lambda a: Lens(a, Mie(False, False),
+                                                  48, 48)),
+                     ("MieLens", lambda a: MieLens(a)),
+                     ("AberratedMieLens", lambda a: AberratedMieLens(
+                         [0.1, 0.05], a))):
+        for a0, a1 in ((0.6, 1.1), (1.0, 0.35), (0.8, 0.8)):
+            try:
+                derived = mk(a0).from_parameters({"lens_angle": a1})
+            except Exception as e:
+                ck.true("from-parameters", False, "%s(%r).from_parameters("
+                        "lens_angle=%r) raised %s: %s" %
+                        (name, a0, a1, type(e).__name__, e))
+                continue
+            ck.true("from-parameters-angle", derived.lens_angle == a1,
+                    "%s(%r).from_parameters(lens_angle=%r) reports angle %r"
+                    % (name, a0, a1, derived.lens_angle))
+            f1 = _field(det, sph, derived, _pol(30.0))
+            f2 = _field(det, sph, mk(a1), _pol(30.0))
+            ck.trans += 2
+            e = float(np.abs(f1 - f2).max() / np.abs(f2).max())
+            ck.metric("from-parameters", e)
+            ck.true("from-parameters", e <= 1e-12, "%s(%r).from_parameters("
+                    "lens_angle=%r) differs from %s(%r) by %.2e" %
+                    (name, a0, a1, name, a1, e))
+            fps.append(fp_values(f1))
     return digest(*fps)
 
 
@@ -520,6 +580,7 @@ def run_case(case):
     fp = {"vec": _run_vec, "ab0": _run_ab0, "interp": _run_interp, "accshared": _run_accshared,
           "orders": _run_orders, "shim": _run_shim, "cutoff": _run_cutoff,
           "largedet": _run_largedet, "detz": _run_detz,
+          "fromparams": _run_fromparams,
           "history": _run_history}[case["kind"]](case, ck)
     return ck.result(fp=fp)
 
